@@ -55,13 +55,25 @@ def hbond_triplets(atoms, bonds, exclude_water=True, sidechain_only=False, oxt_i
     return [(d, h, a) for (d, h) in donors for a in acc if a != d]
 
 
-def _disp(xyz, i, j, cell):
+def _disp(xyz, i, j, cell, R=2):
     """Displacement x_j - x_i per frame, minimum image if cell (3x3 rows a,b,c) is given. xyz (F,n,3)."""
     d = xyz[:, j, :] - xyz[:, i, :]
     if cell is None:
         return d
-    _dm, best, _n = mic.min_image(d, cell, R=2)
+    _dm, best, _n = mic.min_image(d, cell, R=R)
     return best
+
+
+def mic_search_radius(cell):
+    """Smallest R in {1, 2} for which the brute-force image search already agrees with R = 3 on a dense
+    low-discrepancy design of displacements spanning +-2 cells (decides once per cell how far to search)."""
+    from vlib import grids
+    fr = (grids.jitter(4000, 3, 4.0, 0)) @ np.asarray(cell, np.float64)
+    ref = mic.min_image(fr, cell, R=3)[0]
+    for R in (1, 2):
+        if np.array_equal(mic.min_image(fr, cell, R=R)[0], ref):
+            return R
+    return 3
 
 
 def _angle(u, v):
@@ -72,15 +84,15 @@ def _angle(u, v):
     return np.arccos(np.clip(c, -1, 1))
 
 
-def hbond_geometry(xyz, trip, cell=None):
+def hbond_geometry(xyz, trip, cell=None, R=2):
     """xyz (F,n,3) float64; trip (T,3) int.  Returns dict of (F,T) arrays: d_HA, theta (rad, angle at H),
     r_DA, delta (rad, angle at D between H and A), and min_side (smallest triangle side, for error models)."""
     trip = np.asarray(trip, int).reshape(-1, 3)
     D, H, A = trip[:, 0], trip[:, 1], trip[:, 2]
-    hd = _disp(xyz, H, D, cell)
-    ha = _disp(xyz, H, A, cell)
+    hd = _disp(xyz, H, D, cell, R)
+    ha = _disp(xyz, H, A, cell, R)
     dh = -hd
-    da = _disp(xyz, D, A, cell)
+    da = _disp(xyz, D, A, cell, R)
     out = dict(d_HA=np.linalg.norm(ha, axis=-1), theta=_angle(hd, ha), r_DA=np.linalg.norm(da, axis=-1),
                delta=_angle(dh, da), d_DH=np.linalg.norm(hd, axis=-1))
     return out
